@@ -108,7 +108,7 @@ PO5_AUDIT = {
         'm >= 1 is asserted by Myers::new (non-empty pattern), so ceil_div(m, w) >= 1',
     'pattern_matching::myers::long::States::<T>::new|remzero|arg1':
         'w = word_size::<T>() >= 8',
-    'pattern_matching::myers::long::States::<T>::add_state|unwrap|unwrap(ToPrimitive>::to_usize(num::wrapping_add(num::wrapping_add(Option::unwrap_or(Option::map(slice::last(Deref>::deref(arg1.states)),add_state::{closure#0}{}),0),x0),arg2)))<usize>':
+    'pattern_matching::myers::long::States::<T>::add_state|unwrap|unwrap(ToPrimitive>::to_usize(num::wrapping_add(num::wrapping_add(x0,x1),arg2)))<usize>':
         'usize::to_usize is the identity and always Some',
     'pattern_matching::myers::long::States::<T>::step|overflow-sub|Vec::len(arg1.states),1':
         'States::new adds at least one block (min_blocks >= 1) and step truncates to last_block + 1 >= 1',
